@@ -117,6 +117,23 @@ def run_proof(modname, proofname, opts=None, sources=None):
         res['branch_queries'] = ex.stats.branch_queries
         res['solver_time_s'] = round(ex.stats.solver_time, 3)
         res['covered'] = sorted(ex.covered)
+        # vacuity guards: obligations only ever reached under an
+        # unsatisfiable path condition, and cover points of this proof that
+        # no feasible path reached
+        res['vacuous'] = sorted(
+            n for n, ob in ex.obligations.items()
+            if n != 'no-unexpected-exception' and ob.queries
+            and not ob.failed and n not in ex.reached)
+        wanted = set()
+        fnode = getattr(decl.fn, 'node', None)
+        if fnode is not None:
+            import ast as _ast
+            for nd in _ast.walk(fnode):
+                if isinstance(nd, _ast.Call) and isinstance(
+                        nd.func, _ast.Name) and nd.func.id == 'cover' \
+                        and nd.args and isinstance(nd.args[0], _ast.Constant):
+                    wanted.add(nd.args[0].value)
+        res['uncovered'] = sorted(wanted - set(ex.covered))
         res['errors'] = [list(e) for e in ex.errors]
         res['inlined'] = sorted('%s:%s' % k for k in it.inlined)
         res['stubbed'] = sorted('%s:%s' % k for k in it.called)
